@@ -193,6 +193,20 @@ impl<Entities> Batch<Entities> {
     pub(crate) fn len(&self) -> usize {
         self.len
     }
+
+    /// Creates a new `Batch` of `len` entities from columns that are all of length `len`.
+    ///
+    /// Unlike `new_unchecked()`, this also works for a batch without any columns, whose number
+    /// of entities can not be read off its columns. It is what the [`entities!`] macro expands to.
+    ///
+    /// # Safety
+    /// The caller must guarantee that the lengths of all columns within `entities` are `len`.
+    ///
+    /// [`entities!`]: crate::entities!
+    #[doc(hidden)]
+    pub unsafe fn new_unchecked_with_len(entities: Entities, len: usize) -> Self {
+        Self { entities, len }
+    }
 }
 
 /// Creates a batch of entities made from the same components.
@@ -260,17 +274,19 @@ macro_rules! entities {
     }};
     ($(($($components:expr),*)),+ $(,)?) => {
         // SAFETY: During transposition, each column is guaranteed to have an equal number of
-        // components.
+        // components, which is the number of entities given. That number is passed along, since it
+        // can not be read off the columns of entities without components.
         unsafe {
-            $crate::entities::Batch::new_unchecked(
-                $crate::entities!(@transpose [] $(($($components),*)),+)
+            $crate::entities::Batch::new_unchecked_with_len(
+                $crate::entities!(@transpose [] $(($($components),*)),+),
+                <[()]>::len(&[$($crate::entities!(@unit $($components),*)),+]),
             )
         }
     };
     ((); $n:expr) => {
         // SAFETY: There are no columns to check.
         unsafe {
-            $crate::entities::Batch::new_unchecked($crate::entities::Null)
+            $crate::entities::Batch::new_unchecked_with_len($crate::entities::Null, $n)
         }
     };
     () => {
@@ -278,6 +294,10 @@ macro_rules! entities {
         unsafe {
             $crate::entities::Batch::new_unchecked($crate::entities::Null)
         }
+    };
+
+    (@unit $($components:expr),*) => {
+        ()
     };
 
     (@cloned ($component:expr $(,$components:expr)* $(,)?); $n:expr) => {
